@@ -22,12 +22,25 @@ OPS = {
     "verts": "obtain_vertices", "leafa": "obtain_leaf_vertices(accessor)", "leafl": "obtain_leaf_vertices(latter_map)",
     "pm": "path_matching", "cis": "calculate_intersection_score", "enc": "encode", "dec": "decode", "vt": "set_vt",
     "rep": "repair_dna", "fv": "find_vertices", "cvg": "connect_valid_graph", "ccg": "connect_coding_graph",
+    "gen": "the definitions generated from dsw/operation.py by harness/py2lean.py (DswModel.Gen.Operation)",
     "rna": "remove_nasty_arc", "flt": "LocalBioFilter.__init__/valid", "cap": "approximate_capacity (power iteration)",
 }
 
 
 def T(mod, *names):
     return ["DswModel.Props.%s:Dsw.%s" % (mod, n) for n in names]
+
+
+def TIE(mod, *names):
+    return ["DswModel.Tie.%s:Dsw.Tie.%s" % (mod, n) for n in names]
+
+
+TIE_OPERATION = (TIE("OpAdd", "tie_calculus_addition") + TIE("OpSub", "tie_calculus_subtraction") +
+                 TIE("OpMul", "tie_calculus_multiplication") + TIE("OpDiv", "tie_calculus_division") +
+                 TIE("OpBits", "tie_bit_to_number_str", "tie_bit_to_number_int", "tie_number_to_bit_str",
+                     "tie_number_to_bit_int", "tie_number_to_bit_other") +
+                 TIE("OpDna", "tie_dna_to_number_str", "tie_dna_to_number_int", "tie_number_to_dna_str",
+                     "tie_number_to_dna_int", "tie_number_to_dna_other"))
 
 
 PROPS = {
@@ -89,12 +102,15 @@ PROPS = {
                 assumptions=["adjacency_matrix_to_accessor decides legality with list(set|set) != ref, which relies on "
                              "CPython iterating small-int sets in ascending order; the model uses next ⊆ ref"]),
     "C15": dict(level="proof", theorems=T("C15", "C15_canonical_unique", "C15_add", "C15_mul", "C15_div", "C15_sub",
-                                          "C15_special", "C15_holds", "C15_ofNat"), gens=["C15"],
+                                          "C15_special", "C15_holds", "C15_ofNat") + TIE_OPERATION[:4] +
+                TIE("Corollaries", "gen_C15_add", "gen_C15_mul", "gen_C15_div", "gen_C15_div_zero", "gen_C15_sub", "gen_C15_special", "gen_C15_holds"), gens=["C15", "GENOP"], tie="operation",
                 rule="(number, digit) pairs incl. 9..9 / 10..0 chains up to 300 digits (thorough: a third of all numbers "
                      "< 10^4 and 1233/5000-digit chains); non-trivial = a carry/borrow occurs or length >= 9"),
     "C16": dict(level="proof", theorems=T("C16", "C16_bits_roundtrip", "C16_bits_paths_agree", "C16_dna_roundtrip",
                                           "C16_dna_paths_agree", "C16_dna_foreign", "C16_number_bits", "C16_number_dna",
-                                          "C16_fuel"), gens=["C16"],
+                                          "C16_fuel") + TIE_OPERATION +
+                TIE("Corollaries", "gen_C16_bits_roundtrip", "gen_C16_bits_paths_agree", "gen_C16_dna_roundtrip", "gen_C16_dna_paths_agree",
+                    "gen_C16_dna_foreign", "gen_C16_number_bits", "gen_C16_number_dna", "gen_C16_fuel", "gen_C16_number_paths_agree"), gens=["C16", "GENOP"], tie="operation",
                 rule="all bit strings / DNA strings up to a bound, long random ones (64-bit boundary included), numbers "
                      "below the capacity of the width; non-trivial = non-zero value"),
     "C17": dict(level="proof", theorems=T("C17", "C17_step_bounds", "C17_le_four", "C17_arcless", "C17_regular", "C17_certificate_upper", "C17_certificate_lower") + T("C17b", "C17_capStep_entry", "C17_settled_residual", "C17_stop_certificate", "C17_certificate_rat", "C17_stop_accuracy"),
